@@ -444,15 +444,19 @@ class KafkaClient(object):
             log.debug("%r: load_topic_partitions %r %s", self, topics, _ReprRequest(request))
             response = yield self._send_broker_unaware_request(correlationId, request)
 
-            brokers, topics = KafkaCodec.decode_metadata_response(response)
-            self._merge_topic_metadata(brokers, topics, fetched_all_topics=False)
+            brokers, topic_metadata = KafkaCodec.decode_metadata_response(response)
+            self._merge_topic_metadata(brokers, topic_metadata, fetched_all_topics=False)
 
             missing = []
             snapshot = {}
             for topic in topics:
                 errno = self.metadata_error_for_topic(topic)
                 partitions = self.topic_partitions.get(topic)
-                if errno != 0:
+                if topic not in topic_metadata:
+                    # Every *requested* topic must be in the snapshot: a
+                    # response that omits one is not an answer for it.
+                    missing.append(topic + ": not in response")
+                elif errno != 0:
                     missing.append("{}: {}".format(topic, _pretty_errno(errno)))
                 elif not partitions:
                     missing.append(topic + ": no partitions")
